@@ -633,7 +633,10 @@ def extra_checks(ctx, cases_, impl_lines, model_lines_):
                 # the interval the trigger schedules with is the one its configuration literal says ("3hours", "2\tweeks",
                 # "90 Minutes", a bare number = seconds): C20's interval literals
                 + xcheck.borrow(ctx, "C20", "the trigger's interval is what the configured literal says",
-                                lambda c: c[0] == 1, n=1500, seed_salt=11))
+                                lambda c: c[0] == 1, n=1500, seed_salt=11)
+                # ... and literals that do not start with an ASCII digit or contain non-ASCII text (never a panic)
+                + xcheck.borrow(ctx, "C20", "an interval literal with non-ASCII text is an error, not a panic",
+                                lambda c: c[0] == 1 and c[1] in (2, 3) and any(x > 127 for x in c[2]), n=600, seed_salt=53))
     i, want, got = bad
     name = _name(cases_[i])
     return [("get_next_time differs from the property's boundary (python datetime oracle; the zone offset is "
